@@ -42,6 +42,7 @@ Definition resp_eqb (a b : resp) : bool :=
   | RespCreate h s, RespCreate h' s' => (h =? h') && Bool.eqb s s'
   | RespUpdate h s kv, RespUpdate h' s' kv' => (h =? h') && Bool.eqb s s' && opt_eqb kvr_eqb kv kv'
   | RespDelete h s kv, RespDelete h' s' kv' => (h =? h') && Bool.eqb s s' && opt_eqb kvr_eqb kv kv'
+  | RespRewrite r, RespRewrite r' => r =? r'
   | RespError, RespError => true
   | _, _ => false
   end.
@@ -74,7 +75,7 @@ Definition pc_kind (p : pc) : ekind :=
   if is_commit_pc p then KBatch
   else match p with
        | PCreateGet _ _ _ _ => KGet
-       | PDeleteGet _ _ | PFailGet _ _ _ _ => KIter
+       | PDeleteGet _ _ | PFailGet _ _ _ _ | PRwGet _ _ => KIter
        | _ => KStart
        end.
 
@@ -159,10 +160,18 @@ Definition case_records (c : sched_case) : list rrec :=
           (sc_steps c).
 
 Definition resp_succ (r : resp) : bool :=
-  match r with RespCreate _ s | RespUpdate _ s _ | RespDelete _ s _ => s | RespError => false end.
+  match r with
+  | RespCreate _ s | RespUpdate _ s _ | RespDelete _ s _ => s
+  | RespRewrite r => negb (r =? 0)
+  | RespError => false
+  end.
 
 Definition resp_hdr (r : resp) : option N :=
-  match r with RespCreate h _ | RespUpdate h _ _ | RespDelete h _ _ => Some h | RespError => None end.
+  match r with
+  | RespCreate h _ | RespUpdate h _ _ | RespDelete h _ _ => Some h
+  | RespRewrite r => if r =? 0 then None else Some r
+  | RespError => None
+  end.
 
 Definition resp_kv (r : resp) : option (bytes * N) :=
   match r with RespUpdate _ _ kv | RespDelete _ _ kv => kv | _ => None end.
@@ -178,6 +187,7 @@ Definition resp_exact_rev (r : resp) : option N :=
   | RespUpdate h true _ => Some h
   | RespDelete h true _ => Some h
   | RespDelete h false None => Some h
+  | RespRewrite r => if r =? 0 then None else Some r
   | _ => None
   end.
 
@@ -218,6 +228,13 @@ Definition chain_step (ks : kstate) (r : rrec) : option kstate :=
               | None => None
               end
             else None
+        | RqRewrite _ prev =>
+            (* the repair rewrites the value of revision prev at a new revision, keeping the deletion flag *)
+            match ver_get prev (k_vers ks) with
+            | Some v =>
+                if idx_is ks (prev, beqb v tombstone) then Some (k_write ks (rev, beqb v tombstone) rev v) else None
+            | None => None
+            end
         end
       else None
   | _, _ => None
@@ -255,6 +272,9 @@ Definition case_keys (c : sched_case) : list key :=
                   ++ flat_map (fun tq => map req_key (snd tq)) (sc_progs c)).
 
 Definition nreqs (c : sched_case) : nat := length (flat_map snd (sc_progs c)).
+Definition is_rewrite (q : req) : bool := match q with RqRewrite _ _ => true | _ => false end.
+(* requests issued by clients: each is stamped with exactly one revision *)
+Definition nclient (c : sched_case) : nat := length (filter (fun q => negb (is_rewrite q)) (flat_map snd (sc_progs c))).
 
 (* every request got exactly one response *)
 Definition records_complete (c : sched_case) (recs : list rrec) : bool :=
